@@ -30,6 +30,10 @@ def gen(rng, tier):
         pwd, salt = rbytes(rng, 3 + i), rbytes(rng, 16)
         cs.append(Case("pwhash_keypair 1 8192 %s %s" % (hx(pwd), hx(salt)), cls="pwhash_keypair/default"))
         cs.append(Case("pwhash_keypair 1 8192 %s %s %d" % (hx(pwd), hx(salt), hl), cls="pwhash_keypair/hash_length"))
+    # … nor may the Config round the memory limit: limits that are not whole KiB, and KiB counts that are not multiples of 4
+    for mem in (8193, 11264, 13824, 10000, 1051648):
+        pwd, salt = rbytes(rng, 5), rbytes(rng, 16)
+        cs.append(Case("pwhash_keypair 1 %d %s %s" % (mem, hx(pwd), hx(salt)), cls="pwhash_keypair/memlimit-not-aligned"))
     # public key recomputed from a secret key, incl. unclamped ones: every pattern of the five clamped bits
     for lo in range(8):
         for hi in range(4):
